@@ -548,7 +548,7 @@ Theorem C18_escaped_step : forall arg cur pi st vaf,
   shadow_step arg cur pi true st vaf =
   match (if try_sub cur st && negb (is_set s_args_negate_subs cur && vaf) && utf8_valid arg then find_subcommand cur arg else None) with
   | Some next => SNext next 1 true ValueDone false
-  | None => match parse_positional cur pi true st with
+  | None => match parse_positional cur pi true st arg with
             | Some (st', pi') => SNext cur pi' true st' true
             | None => SPanic 673
             end
@@ -557,9 +557,9 @@ Proof. exact escaped_step. Qed.
 Print Assumptions C18_escaped_step.
 
 (** ... and a counted value leaves the state [Pos], never [ValueDone] *)
-Theorem C18_escaped_positional_state : forall cur pi st st' pi',
+Theorem C18_escaped_positional_state : forall cur pi st w st' pi',
   (match st with Opt _ _ => False | _ => True end) ->
-  parse_positional cur pi true st = Some (st', pi') -> exists i n, st' = Pos i n.
+  parse_positional cur pi true st w = Some (st', pi') -> exists i n, st' = Pos i n.
 Proof. exact escaped_positional_state. Qed.
 Print Assumptions C18_escaped_positional_state.
 
@@ -615,14 +615,32 @@ Print Assumptions C18_values_agree.
     stands in [Opt _ 3], the parser has closed the occurrence; `p --opt a ; sub <TAB>`: the parser accepts the line and is at
     `sub`, the engine took `sub` for the third value, stays at `p`, offers `--opt` of `p`, and `p --opt a ; sub --opt` is
     rejected with UnknownArgument (same on the real crate) *)
-Theorem C18_terminator_refuted :
-  Term.walk_at ([112] :: [Term.ddopt; [97]; Term.semi] ++ [[]]) 4 = Some ([112], 3) /\
+Theorem C18_terminator_before_after :
+  (* option: the parser *)
   Term.chain_of (parse_top Term.c0 ([112] :: Term.line)) = Some [Term.w_sub] /\
-  Term.walk_at ([112] :: Term.line ++ [[45; 45]]) 5 = Some ([112], 0) /\
-  Term.has_cand Term.ddopt (IdArg Term.w_opt) (complete_model [] Term.c0 ([112] :: Term.line ++ [[45; 45]]) 5) = true /\
-  Term.kind_of (parse_top Term.c0 ([112] :: Term.line ++ [Term.ddopt])) = Some EUnknownArgument.
-Proof. exact terminator_refuted. Qed.
-Print Assumptions C18_terminator_refuted.
+  Term.kind_of (parse_top Term.c0 ([112] :: Term.line ++ [Term.ddopt])) = Some EUnknownArgument /\
+  Term.chain_of (parse_top Term.c0 ([112] :: Term.line ++ [Term.dd Term.w_so])) = Some [Term.w_sub] /\
+  (* option: before *)
+  Term.walk_at_before Term.c0 ([112] :: [Term.ddopt; [97]; Term.semi] ++ [[]]) 4 = Some ([112], 3) /\
+  Term.walk_at_before Term.c0 ([112] :: Term.line ++ [[45; 45]]) 5 = Some ([112], 0) /\
+  Term.has_cand Term.ddopt (IdArg Term.w_opt) (complete_model_before_termfix [] Term.c0 ([112] :: Term.line ++ [[45; 45]]) 5) = true /\
+  (* option: after *)
+  Term.walk_at Term.c0 ([112] :: [Term.ddopt; [97]; Term.semi] ++ [[]]) 4 = Some ([112], 0) /\
+  Term.walk_at Term.c0 ([112] :: Term.line ++ [[45; 45]]) 5 = Some (Term.w_sub, 0) /\
+  Term.has_cand Term.ddopt (IdArg Term.w_opt) (complete_model [] Term.c0 ([112] :: Term.line ++ [[45; 45]]) 5) = false /\
+  Term.has_cand (Term.dd Term.w_so) (IdArg Term.w_so) (complete_model [] Term.c0 ([112] :: Term.line ++ [[45; 45]]) 5) = true /\
+  (* positional: the parser *)
+  Term.chain_of (parse_top Term.c1 ([112] :: Term.line1)) = Some [Term.w_sub] /\
+  Term.kind_of (parse_top Term.c1 ([112] :: Term.line1 ++ [Term.dd Term.w_pf])) = Some EUnknownArgument /\
+  (* positional: before *)
+  Term.walk_at_before Term.c1 ([112] :: Term.line1 ++ [[45; 45]]) 4 = Some ([112], 3) /\
+  Term.has_cand (Term.dd Term.w_pf) (IdArg Term.w_pf) (complete_model_before_termfix [] Term.c1 ([112] :: Term.line1 ++ [[45; 45]]) 4) = true /\
+  (* positional: after *)
+  Term.walk_at Term.c1 ([112] :: Term.line1 ++ [[45; 45]]) 4 = Some (Term.w_sub, 0) /\
+  Term.has_cand (Term.dd Term.w_pf) (IdArg Term.w_pf) (complete_model [] Term.c1 ([112] :: Term.line1 ++ [[45; 45]]) 4) = false /\
+  Term.has_cand (Term.dd Term.w_so) (IdArg Term.w_so) (complete_model [] Term.c1 ([112] :: Term.line1 ++ [[45; 45]]) 4) = true.
+Proof. exact terminator_before_after. Qed.
+Print Assumptions C18_terminator_before_after.
 
 (** the engine's positional lookup IS the parser's key-map lookup *)
 Theorem C18_find_pos_is_get_pos : forall c n, assert_app c = true -> find_pos c n = get_pos c n.
@@ -704,7 +722,7 @@ Theorem C18_args_conflict_levels : forall pc cur pre F pos tok sc0,
        parse_loop pc (tok :: rest) (Chain.lsV 1 false) st = ROk (LSub n' false false st rest)) /\
   (pre <> [] -> ChainWide.plain_tok tok ->
      shadow_run (pre ++ [tok]) cur 1 false ValueDone false =
-       match parse_positional cur pos false ValueDone with
+       match parse_positional cur pos false ValueDone tok with
        | Some (st, pi) => SNext cur pi false st true
        | None => SPanic 673
        end /\
